@@ -232,6 +232,9 @@ func (e *enc) run(fr *frame, atEntry Term) {
 			e.loopHeader(fr, b)
 		}
 		for _, in := range b.Instrs {
+			if c, ok := in.(*ssa.Call); ok && fr.contract != nil && len(fr.contract.Before) > 0 {
+				e.aroundCall(fr, c, fr.contract.Before, "assert-before@")
+			}
 			e.instr(b, in)
 			if d, ok := in.(*ssa.DebugRef); ok {
 				if obj, ok := d.Object().(*types.Var); ok && obj != nil && !isPkgLevel(obj) {
@@ -713,7 +716,9 @@ func (e *enc) loopLatch(fr *frame, latch, h *ssa.BasicBlock) {
 }
 
 // afterCall: lemmas attached to "the k-th call of callee" (source order) are proved, then assumed
-func (e *enc) afterCall(fr *frame, c *ssa.Call) {
+func (e *enc) afterCall(fr *frame, c *ssa.Call) { e.aroundCall(fr, c, fr.contract.After, "assert@") }
+
+func (e *enc) aroundCall(fr *frame, c *ssa.Call, table map[string][]Clause, cls string) {
 	if fr.callOrd == nil {
 		fr.callOrd = map[*ssa.Call]string{}
 		byName := map[string][]*ssa.Call{}
@@ -735,7 +740,7 @@ func (e *enc) afterCall(fr *frame, c *ssa.Call) {
 		}
 	}
 	key := fr.callOrd[c]
-	for i, cl := range fr.contract.After[key] {
+	for i, cl := range table[key] {
 		env := e.fnEnv(fr, e.mem)
 		names := fr.curNames
 		env.locals = func(name string) (tval, bool) {
@@ -756,10 +761,10 @@ func (e *enc) afterCall(fr *frame, c *ssa.Call) {
 		}
 		g, err := e.specBool(env, cl.E)
 		if err != nil {
-			e.contractError(fr, fmt.Sprintf("assert after %s: %v", key, err))
+			e.contractError(fr, fmt.Sprintf("assert at %s: %v", key, err))
 			continue
 		}
-		e.oblige(fmt.Sprintf("assert@%s.%d", key, i+1), g, c.Pos(), cl.Text)
+		e.oblige(fmt.Sprintf("%s%s.%d", cls, key, i+1), g, c.Pos(), cl.Text)
 		e.assumeAt(g)
 	}
 }
